@@ -1,5 +1,6 @@
 import SpoxModel.Lemmas.Types
 import SpoxModel.Generated.Dtypes
+import SpoxModel.Generated.TypeOverrides
 /-!
 # C13 — types are canonical; compatibility and broadcasting are exact and sound
 
@@ -93,6 +94,17 @@ theorem subtype_iff_common_value (a b : Ty) (ha : WF a) (hb : b.allElems okElem 
     subtype table a b = true ↔ ∃ v : RtVal, v.witness = true ∧ conforms v a ∧ conforms v b := by
   rw [subtype_exact a b ha hb]; exact compat_iff_common_value a b
 
+/-- The judgement at call boundaries does not depend on which side is the argument and which the
+    parameter (describing a common runtime value is symmetric). -/
+theorem subtype_symm (a b : Ty) (ha : WF a) (hb : WF b) : subtype table a b = subtype table b a := by
+  have h1 := subtype_iff_common_value a b ha hb.2
+  have h2 := subtype_iff_common_value b a hb ha.2
+  cases hab : subtype table a b <;> cases hba : subtype table b a <;> try rfl
+  · obtain ⟨v, hw, h, h'⟩ := h2.1 hba
+    exact absurd (h1.2 ⟨v, hw, h', h⟩) (by simp [hab])
+  · obtain ⟨v, hw, h, h'⟩ := h1.1 hab
+    exact absurd (h2.2 ⟨v, hw, h', h⟩) (by simp [hba])
+
 /-! ## Broadcasting -/
 
 /-- **On known dimensions static broadcasting is numpy's rule.** -/
@@ -184,6 +196,87 @@ theorem broadcast_raises_only_if_impossible (a b : Shape) (sa sb : List Nat)
 theorem broadcast_unknown_rank (b : Shape) : broadcast none b = some none ∧ broadcast b none = some none := by
   cases b <;> simp [broadcast]
 
+
+/-! ## Operand spellings (simple format) and operand order -/
+
+/-- Reading a shape back from its own simple form is the identity (`Shape.from_simple ∘ to_simple`):
+    every shape has a simple spelling, and that spelling denotes it. -/
+theorem fromSimple_toSimple (s : Shape) : Shape.fromSimple (Shape.toSimple s) = s :=
+  shape_simple_roundtrip s
+
+/-- **The answer does not depend on the spelling of the operand**: a `Shape` object and its simple
+    form (tuple / `None`) give the same `broadcast`. -/
+theorem broadcastArg_spelling (a s : Shape) :
+    broadcastArg a (.simple (Shape.toSimple s)) = broadcastArg a (.shape s) := by
+  simp only [broadcastArg, ShapeArg.resolve, shape_simple_roundtrip]
+
+/-- More generally, two arguments that denote the same shape are treated the same. -/
+theorem broadcastArg_congr (a : Shape) (o₁ o₂ : ShapeArg) (h : o₁.resolve = o₂.resolve) :
+    broadcastArg a o₁ = broadcastArg a o₂ ∧ canBroadcast a o₁ = canBroadcast a o₂ := by
+  simp only [canBroadcast, broadcastArg, h, and_self]
+
+/-- **`None` in the simple format is the unknown rank, not an absent operand**: the result is the
+    unknown rank too (which every runtime shape conforms to), whatever `self` is. -/
+theorem broadcastArg_none (a : Shape) :
+    broadcastArg a (.simple none) = some none ∧ broadcastArg a (.shape none) = some none := by
+  cases a <;> simp [broadcastArg, ShapeArg.resolve, Shape.fromSimple, broadcast]
+
+/-- Soundness for every spelling of the operand: the claim is never contradicted by conforming values. -/
+theorem broadcastArg_sound (a c : Shape) (o : ShapeArg) (sa sb s : List Nat)
+    (h : broadcastArg a o = some c) (ha : confShape sa a) (hb : confShape sb o.resolve)
+    (hs : npBroadcast sa sb = some s) : confShape s c :=
+  broadcast_sound a o.resolve c sa sb s h ha hb hs
+
+/-- ... and `ShapeError` / `can_broadcast = False` only when no conforming values could broadcast. -/
+theorem canBroadcast_false_only_if_impossible (a : Shape) (o : ShapeArg) (sa sb : List Nat)
+    (h : canBroadcast a o = false) (ha : confShape sa a) (hb : confShape sb o.resolve) :
+    npBroadcast sa sb = none := by
+  apply broadcast_raises_only_if_impossible a o.resolve sa sb _ ha hb
+  simpa [canBroadcast, broadcastArg] using h
+
+/-- The rank of a static broadcast of shapes of known rank is the larger rank (numpy's), and unknown
+    rank results only from an operand of unknown rank. -/
+theorem broadcast_rank (a b : Shape) (c : Shape) (h : broadcast a b = some c) :
+    c.maybeRank = (a.maybeRank.bind fun ra => b.maybeRank.map fun rb => max ra rb) := by
+  cases a with
+  | none => simp [broadcast] at h; subst h; simp [Shape.maybeRank]
+  | some xa =>
+    cases b with
+    | none => simp [broadcast] at h; subst h; simp [Shape.maybeRank]
+    | some xb =>
+      cases c with
+      | none =>
+        simp only [broadcast] at h
+        split at h <;> simp at h
+      | some xc => simp [Shape.maybeRank, Types.broadcast_rank xa xb xc h]
+
+/-- **Both operand orders give the same answer.** -/
+theorem broadcast_comm (a b : Shape) : broadcast a b = broadcast b a := Types.broadcast_comm a b
+
+/-! ## What the model covers (tie G: inventory of the type layer's classes and deciding methods) -/
+
+/-- Obligation: the classes deriving from `Type` / `Natural` / `Shape` anywhere under `src/spox`, their
+    bases and dataclass decorators (equality and hash are the generated field-wise ones: no class defines
+    `__eq__` / `__hash__`; no deciding method is wrapped by a decorator such as a cache; the only
+    class-level attribute with a value is the field default `Unknown.label`), and the methods among those that decide compatibility, broadcasting and the
+    ONNX forms which each class defines, are exactly the ones `Model/Types.lean` describes. A new
+    subclass, override, decorator change or unparsable file fails this whatever inputs are generated. -/
+theorem type_layer_inventory :
+    Generated.TypeOverrides.classes.map (fun c => (c.name, c.bases, c.decorators, c.methods)) =
+      [("Constant", ["Natural"], ["dataclass(frozen=True)"], ["__le__", "to_simple"]),
+       ("Natural", [], ["dataclass(frozen=True)"],
+          ["__le__", "from_onnx", "from_simple", "simple_from_onnx", "simple_to_onnx", "to_onnx", "to_simple"]),
+       ("Shape", [], ["dataclass(frozen=True)"],
+          ["__bool__", "__getitem__", "__le__", "broadcast", "can_broadcast", "from_onnx", "from_simple",
+           "maybe_rank", "rank", "to_onnx", "to_simple"]),
+       ("Unknown", ["Natural"], ["dataclass(frozen=True)"], ["__le__", "attr:label", "to_simple"]),
+       ("Optional", ["Type"], ["dataclass(frozen=True)"], ["_subtype", "_to_onnx"]),
+       ("Sequence", ["Type"], ["dataclass(frozen=True)"], ["_subtype", "_to_onnx"]),
+       ("Tensor", ["Type"], ["dataclass(frozen=True)"], ["__init__", "_subtype", "_to_onnx", "dtype", "shape"]),
+       ("Type", [], ["dataclass(frozen=True)"], ["_from_onnx", "_subtype", "_to_onnx"])]
+    ∧ Generated.TypeOverrides.functions.map (·.1) = ["_broadcast_elem"]
+    ∧ Generated.TypeOverrides.opaqueFiles = [] := by decide +kernel
+
 /-! ## Non-vacuity -/
 
 -- int64 (class of `Tensor(np.int64)`) has an inhabitant among the generated spellings
@@ -193,6 +286,11 @@ example : broadcast (some [.const 2, .unk "N", .const 1]) (some [.const 3, .unk 
     = some (some [.const 2, .const 3, .unk ""]) := by decide
 example : broadcast (some [.const 2]) (some [.const 3]) = none := by decide
 example : npBroadcast [2, 1, 3] [4, 1] = some [2, 4, 3] := by decide
+-- the spellings `(2, 'N', None)` and `(2, 'N', '')` denote one shape; `None` denotes the unknown rank
+example : Shape.fromSimple (some [.int 2, .str "N", .none]) = Shape.fromSimple (some [.int 2, .str "N", .str ""]) := by decide
+example : broadcastArg (some [.const 2]) (.simple none) = some none := by decide
+example : broadcastArg (some [.const 2, .const 1]) (.simple (some [.str "N"])) = some (some [.const 2, .unk "N"]) := by decide
+example : canBroadcast (some [.const 2]) (.simple (some [.int 3])) = false := by decide
 example : compat (.seq (.tensor 7 (some [.const 2]))) (.seq (.tensor 7 (some [.unk "N"]))) = true := by decide
 example : compat (.tensor 7 (some [.const 2])) (.tensor 7 (some [.const 3])) = false := by decide
 
